@@ -19,7 +19,9 @@ RULE = (
     "(they build the processing order, the filelist, the lock names and the lockfile text) an order-sensitive site is a violation "
     "unless the triage table names a sort call that separates it from the named sink on every CFG path (checked). "
     "R2 veryl_path::gather_files_with_extension: the WalkDir whose entries are pushed to the result is built with "
-    "sort_by_file_name. R3 elsewhere on the build path an order-sensitive site must be in the triage table (one reason "
+    "sort_by_file_name (a sort whose comparator goes through a lossy key - file_name, len, case folding - does not count: ties keep "
+    "hash order). R4 the crates that produce emitted bytes (veryl_emitter, veryl_sourcemap, veryl_pretty, veryl_aligner) make no "
+    "file-system-state, environment or clock query except the four frozen reader sites. R3 elsewhere on the build path an order-sensitive site must be in the triage table (one reason "
     "each, confirmed by reading); a site that is not is reported UNDECIDED, never as a violation."
 )
 
@@ -212,7 +214,35 @@ def sorted_before_use(fn, cb, ct):
             if s[0] == "=" and s[2][0] == "use" and s[2][1][0] == "m" and s[2][1][1][0] == v and not s[2][1][1][1]:
                 if fn.reaches(ct["to"], bi, avoid=sort_blocks):
                     return "sensitive", "Vec moved at line %s before it is sorted" % s[3]
+    # the order is total only if the comparator looks at the whole element or at a key that identifies it: a comparator that goes
+    # through a lossy projection (file_name, file_stem, len, to_lowercase, ...) leaves ties in hash order
+    for sb in sort_blocks:
+        lossy = _lossy_comparator(fn.blocks[sb]["t"])
+        if lossy:
+            return "sensitive", "the sort's comparator compares %s: equal keys keep the hash map's order" % lossy
     return "sorted", "collect into a Vec that is sorted before use"
+
+
+WORLD = [None]
+LOSSY_KEY = re.compile(r"std::path::Path::(file_name|file_stem|extension|parent)$|::len$|::to_(ascii_)?(lower|upper)case$|::is_empty$|::count$|core::str::<impl str>::(trim|trim_start|trim_end)$")
+
+
+def _lossy_comparator(t):
+    w = WORLD[0]
+    if w is None:
+        return None
+    out = set()
+    for cl in t.get("cl", []) or []:
+        if cl not in w.fns:
+            continue
+        g = Fn(w.mir(cl))
+        for bi, tt in g.calls(r"cmp::(Ord|PartialOrd)(<.*>)?(>)?::(cmp|partial_cmp)$|::cmp$"):
+            for a in tt["args"]:
+                pv = g.prov(a, depth=14)
+                for x in pv:
+                    if x[0] == "call" and LOSSY_KEY.search(x[1] or ""):
+                        out.add(x[1].split("::")[-1] + "()")
+    return sorted(out) or None
 
 
 def receiver_name(fn, t):
@@ -262,6 +292,7 @@ def run(world, tier, info, only=None):
         return ck.finish(info)
     ck.assume("FxHashMap / BuildHasherDefault tables hash deterministically: their iteration order is a function of the "
               "insertion history, which is the same from run to run when the processing order is")
+    WORLD[0] = w
     ck.assume("BTreeMap / Vec / slice iteration and WalkDir::sort_by_file_name are deterministic")
     n_fns = 0
     sites = []
@@ -346,6 +377,32 @@ def run(world, tier, info, only=None):
         pv = g.prov(t["args"][1], depth=30)
         ck.ob("R2", "walk-sorted", any(x[0] == "call" and re.search(r"WalkDir::sort_by_file_name$", x[1] or "") for x in pv),
               site(w.fns[gp], t["l"]), "every path pushed to the result comes from a WalkDir built with sort_by_file_name")
+    # ---------------- R4: emission does not query the environment -------------------------------------------------
+    ENVQ = re.compile(r"^std::fs::(canonicalize|metadata|symlink_metadata|read_link|read_dir|read|read_to_string)$|^std::path::Path::(exists|is_file|is_dir|is_symlink|canonicalize|metadata|read_link|try_exists)$"
+                      r"|^std::env::(current_dir|var|var_os|vars|temp_dir|home_dir)$|^std::time::(SystemTime|Instant)::now$|^std::process::id$")
+    EMIT_ALLOW = {
+        ("<veryl_emitter::emitter::Emitter as veryl_parser::veryl_walker::VerylWalker>::include_declaration", "std::fs::read_to_string"):
+            "the text of an `include` file is an input of the build",
+        ("veryl_sourcemap::sourcemap::SourceMap::from_src", "std::fs::read_to_string"): "reader of an existing map (used by tooling, not by emission)",
+        ("veryl_sourcemap::sourcemap::SourceMap::from_src", "std::fs::read"): "reader of an existing map",
+        ("veryl_sourcemap::sourcemap::SourceMap::lookup", "std::fs::canonicalize"): "reader-side path resolution, produces no emitted bytes",
+    }
+    n4 = 0
+    for p4, s4 in sorted(w.fns.items()):
+        if s4.get("alias_of") or s4["crate"] not in ("veryl_emitter", "veryl_sourcemap", "veryl_pretty", "veryl_aligner") or "::tests::" in p4:
+            continue
+        for c in s4["calls"]:
+            cc = c["c"] or ""
+            if not ENVQ.search(cc):
+                continue
+            n4 += 1
+            owner = re.sub(r"::\{closure#\d+\}.*$", "", p4)
+            why = EMIT_ALLOW.get((owner, cc))
+            ck.ob("R4", "emission-queries-environment:%s/%s" % (owner, cc.split("::")[-1]), why is not None, site(s4, c["l"]),
+                  "allowed: " + why if why else
+                  "%s calls %s while producing emitted bytes: the output then depends on file-system or process state that can differ between two "
+                  "runs of the same build (symlinks, directories that exist only after the first run, cwd, time)" % (p4, cc))
+    ck.floor("R4", "environment queries in the emitting crates", n4, 3)
     ck.analysed = {"crates": SCOPE, "functions": n_fns, "sites": len(sites), "classified": counts,
                    "order_defining_functions": sorted(ORDER_DEFINING)}
     return ck.finish(info)
